@@ -222,6 +222,8 @@ pub fn run_one(sc: &Value) -> Vec<Value> {
         }
     };
 
+    // frames other than heartbeat pulses taken off the stream so far
+    let data_seen = std::cell::Cell::new(0u64);
     let consume = |rx: &mut Option<tokio::sync::mpsc::Receiver<Frame>>, closed: &mut bool, store: &Store| -> bool {
         let Some(r) = rx.as_mut() else { return false };
         if *closed {
@@ -239,6 +241,9 @@ pub fn run_one(sc: &Value) -> Vec<Value> {
                     ev["get_ok"] = json!(f.ttl == Some(TTL::Ephemeral) || store.get(&f.id).is_some());
                 }
                 verif::emit(Some("R"), "r.recv", ev);
+                if f.topic != "xs.pulse" {
+                    data_seen.set(data_seen.get() + 1);
+                }
                 true
             }
             Err(tokio::sync::mpsc::error::TryRecvError::Empty) => false,
@@ -424,6 +429,29 @@ pub fn run_one(sc: &Value) -> Vec<Value> {
         let mut k = 0;
         while k < 20 && consume(&mut rx, &mut closed, &store) {
             k += 1;
+        }
+    }
+    // "The follower has received everything" is concluded from quiet, not from a few milliseconds: an open follow
+    // stream is drained until, for 250 ms on end, nothing arrived and no actor was running (a thread that has been
+    // woken but not scheduled yet on a loaded machine still counts as running or delivers within that window); 5 s cap.
+    if reader_started && !closed && sc["follow"].as_str().unwrap_or("off") != "off" {
+        let cap = std::time::Instant::now() + Duration::from_secs(5);
+        let mut quiet_since = std::time::Instant::now();
+        while !closed && std::time::Instant::now() < cap {
+            let before = data_seen.get();
+            let mut k = 0;
+            while k < 50 && consume(&mut rx, &mut closed, &store) {
+                k += 1;
+            }
+            // (heartbeat pulses and the heartbeat task never rest: they are not what is waited for)
+            let got = data_seen.get() > before;
+            let running = verif::actors().iter().any(|(n, st)| *st == ActorState::Running && !n.ends_with(".hb"));
+            if got || running {
+                quiet_since = std::time::Instant::now();
+            } else if quiet_since.elapsed() >= Duration::from_millis(250) {
+                break;
+            }
+            std::thread::sleep(Duration::from_millis(2));
         }
     }
     if do_poll {
